@@ -247,6 +247,7 @@ func C19(ctx *core.Ctx, r *core.Report) {
 	c19KeysFoundIndependently(ctx, r)
 	c19CarriageReturnEscaped(ctx, r)
 	readerErrorsSurface(ctx, r)
+	c19ListFormAgreesWithScalar(ctx, r)
 }
 
 // storedToCaptured: the error is assigned to a variable of the enclosing function (closure result pattern).
